@@ -41,7 +41,8 @@ package core
 //@   requires mwf(l)
 //@   ensures[empty] old(l.count) == 0 ==> l.count == 0 && l.head == nil && l.tail == nil
 //@   ensures[count] old(l.count) > 0 ==> l.count == old(l.count) - 1
-//@   ensures[shift] forall i int :: 0 <= i && i < l.count ==> mq(l, i) == old(mq(l, i + 1))
+//@   ensures[shift] forall i int :: 0 <= i && i < l.count ==> qnth_local(old(heap(Msg.prev)), heap(Msg.prev), l.head, i)
+//@       && qnth_shift(old(heap(Msg.prev)), old(l.head), i) && mq(l, i) == old(mq(l, i + 1))
 //@   ensures[wf] mwf(l)
 //@   ensures[detached] old(l.count) > 0 ==> old(l.head).prev == nil && old(l.head).next == nil
 
@@ -53,3 +54,44 @@ package core
 //@   loop 0
 //@     invariant exists k int :: 0 <= k && k <= l.count && cur == mq(l, k) && qnth_unfold(heap(Msg.prev), l.head, k + 1)
 //@         && (forall i int :: 0 <= i && i < k ==> mqm(l, i).Done)
+
+// ---- FragQueue: same shape over Frag.prev ----
+
+//@ define fq(l, k) = qnth(heap(Frag.prev), l.head, k)
+//@ define fqm(l, k) = ref(Frag, fq(l, k))
+//@ define fwf(l) = l.count >= 0 && qnth_unfold(heap(Frag.prev), l.head, 1) && (l.count == 0 ==> l.head == nil && l.tail == nil)
+//@     && (l.count > 0 ==> l.head != nil && l.tail == fq(l, l.count - 1) && l.tail.prev == nil)
+//@     && (forall i int :: 0 <= i && i < l.count ==> fq(l, i) != nil)
+//@     && (forall i int, j int :: 0 <= i && i < j && j < l.count ==> fq(l, i) != fq(l, j))
+//@ define fnotin(l, m) = forall i int :: 0 <= i && i < l.count ==> fq(l, i) != m
+
+//@ func FragQueue.Empty
+//@   props C10
+//@   flags pure
+//@   ensures result == (l.count < 1)
+
+//@ func FragQueue.Reset
+//@   props C10
+//@   modifies l.count, l.tail, l.head
+//@   ensures fwf(l) && l.count == 0
+
+//@ func FragQueue.PushTail
+//@   props C10
+//@   modifies l.head, l.tail, l.count, m.next, m.prev, old(l.tail).prev
+//@   requires fwf(l) && m != nil && fnotin(l, m)
+//@   ensures[count] l.count == old(l.count) + 1
+//@   ensures[keep] forall i int :: 0 <= i && i < old(l.count) ==> fq(l, i) == old(fq(l, i))
+//@   ensures[last] qnth_unfold(heap(Frag.prev), l.head, old(l.count)) && fq(l, old(l.count)) == m
+//@   ensures[wf] fwf(l)
+
+//@ func FragQueue.PopHead
+//@   props C10
+//@   modifies l.head, l.tail, l.count, old(l.head).next, old(l.head).prev, old(l.head.prev).next
+//@   requires fwf(l)
+//@   ensures[empty] old(l.count) == 0 ==> l.count == 0 && l.head == nil && l.tail == nil
+//@   ensures[count] old(l.count) > 0 ==> l.count == old(l.count) - 1
+//@   ensures[shift] forall i int :: 0 <= i && i < l.count ==> qnth_local(old(heap(Frag.prev)), heap(Frag.prev), l.head, i)
+//@       && qnth_shift(old(heap(Frag.prev)), old(l.head), i) && fq(l, i) == old(fq(l, i + 1))
+//@   ensures[wf] fwf(l)
+//@   ensures[detached] old(l.count) > 0 ==> old(l.head).prev == nil && old(l.head).next == nil
+
